@@ -91,6 +91,7 @@ type Contract struct {
 	Flags     map[string]bool
 	Effects   []string
 	Waive     map[string]string // obligation kind -> reason (listed in evidence)
+	GhostLocals []GhostDecl      // per-activation ghost variables
 	File      string
 	Line      int
 }
@@ -613,6 +614,15 @@ func parseSpecFile(file string, repoStyle bool, defaultPkg string, specs map[str
 				fatalf("%s:%d: bad ghost", file, lineNo)
 			}
 			get().Ghosts = append(get().Ghosts, GhostDecl{f[0], strings.Join(f[1:], "")})
+		case "ghostlocal":
+			if fn == nil {
+				fatalf("%s:%d: ghostlocal outside func", file, lineNo)
+			}
+			f := strings.Fields(rest)
+			if len(f) < 2 {
+				fatalf("%s:%d: bad ghostlocal", file, lineNo)
+			}
+			fn.GhostLocals = append(fn.GhostLocals, GhostDecl{f[0], strings.Join(f[1:], "")})
 		case "ghostpre":
 			if cs == nil {
 				fatalf("%s:%d: ghostpre outside callsite", file, lineNo)
